@@ -421,7 +421,8 @@ def parseTransactionArg (text : Bytes) : Option (List Int × Tx × Nat) :=
     match parseTxHex p with
     | none => none
     | some (tx, n) =>
-      some (amounts ++ List.replicate (tx.vin.length - amounts.length) 0, tx, n)
+      if tx.vin.isEmpty then none                      -- "error: the transaction has no inputs"
+      else some (amounts ++ List.replicate (tx.vin.length - amounts.length) 0, tx, n)
 
 /-! ## canonical rendering for the differential test -/
 
